@@ -91,6 +91,7 @@ def check_c16(prog, rep, tier, cfg):
     c17b(prog, AliasReport(rep, [("C17.b", r".", "C16.h")]))
     c16i(prog, rep)
     c16j(prog, rep)
+    c16l(prog, rep)
     # C16.k — every source file found under a directory is formatted like the same content from stdin: the walk drops an entry only
     # because it is not a formattable file (shared with C18.f / C18.h)
     c18f(prog, AliasReport(rep, [("C18.f", r"^dropping-adaptor|^floor:reviewed dropping", "C16.k"), ("C18.h", r".", "C16.k")]))
@@ -173,6 +174,63 @@ def callback_arg_origins(prog, closure, param_local):
             if 0 <= k < len(ops):
                 return origins(drv).of_operand(ops[k])
     return None
+
+
+# what may stand between the text of the --files-from list and the path list: cutting into lines, element-preserving adapters, and
+# conversions that keep the text
+FILES_FROM_OK = ("read_to_string", "with_context", "context", "branch", "deref", "lines", "map", "collect", "into_iter", "iter", "from", "to_owned", "to_string", "into", "as_str",
+                 "as_ref", "borrow", "clone", "cloned", "copied", "closure", "tmp", "Some", "Ok", "to_mut", "index", "RangeFull", "Borrowed", "Cow", "fn")
+
+
+def c16l(prog, rep):
+    """C16.l — "files mode leaves the file holding what stdin mode prints", for every file the user names: a path listed with
+    `--files-from` is a line of the list, taken as written.  In get_paths the text of the list reaches the path list through
+    `str::lines` (the documented separator), element-preserving adapters and text-preserving conversions only: a cut at any
+    whitespace, a trim or a filter turns `my units/unit1.pas` into other paths, and the named file is neither formatted nor checked."""
+    R = "C16.l"
+    cands = [b for n, b in prog.bodies.items() if n.endswith("FormatterConfiguration>::get_paths") and b.crate.startswith("pasfmt_orchestrator")]
+    if not rep.check(len(cands) == 1, R, "anchor:get_paths", "the FormatterConfiguration::get_paths implementation of PasFmtConfiguration not found"):
+        return
+    b = cands[0]
+    fam = [b] + list(prog.closures_of(b.npath))
+    reads = [c for x in fam for c in x.calls() if (c.callee or "") in ("std::fs::read_to_string", "std::fs::read")]
+    if not rep.check(len(reads) == 1 and reads[0].body is b, R, "anchor:files-from-read", "get_paths no longer reads the --files-from list with one read_to_string call"):
+        return
+    # every use of the text: the call chains whose canonical argument text mentions the read
+    sinks = [c for c in b.calls() if (c.callee or "").split("::")[-1] in ("extend", "push", "append", "extend_from_slice", "insert") and any("read_to_string(" in canon(b, a) for a in c.args)]
+    if not rep.check(len(sinks) >= 1, R, "anchor:files-from-sink", "the text of the --files-from list does not reach the path list through extend / push in get_paths"):
+        return
+    bad = []
+    for snk in sinks:
+        text = [canon(b, a) for a in snk.args if "read_to_string(" in canon(b, a)][0]
+        flat, depth = "", 0
+        for ch in text:
+            if ch == "{":
+                depth += 1
+            elif ch == "}":
+                depth -= 1
+            elif depth == 0:
+                flat += ch
+        fns = set(re.findall(r"([A-Za-z_][A-Za-z_0-9]*)\(", flat)) | set(re.findall(r"fn:([A-Za-z_][A-Za-z_0-9]*)", flat))
+        other = sorted(f for f in fns if f not in FILES_FROM_OK)
+        if other or "lines(" not in flat:
+            bad.append((other, flat[:120]))
+        # closures handed to the adapters keep the text too
+        for c in b.calls():
+            if c.bb == snk.bb:
+                continue
+            for a in c.args[1:]:
+                if a["k"] in ("copy", "move") and not a["place"]["p"]:
+                    clos = b.locals[a["place"]["l"]].get("closure")
+                    cb = prog.body(norm(clos)) if clos else None
+                    if cb is not None and (c.callee or "").split("::")[-1] in ("map", "filter", "filter_map", "flat_map"):
+                        cf = {(k.callee or "").split("::")[-1] for k in cb.calls()}
+                        o2 = sorted(f for f in cf if f not in FILES_FROM_OK)
+                        if o2:
+                            bad.append((o2, "closure of " + (c.callee or "").split("::")[-1]))
+    rep.check(not bad, R, "listed-path=line-as-written",
+              "a path of the --files-from list is not a line of the list as written: %s — paths that contain blanks (or whatever the extra step cuts or removes) name other files, and the "
+              "listed file is neither formatted nor checked" % bad[:2], where=sinks[0].where(), instance={"sinks": len(sinks), "deviations": [str(x) for x in bad[:3]]})
 
 
 def c16j(prog, rep):
